@@ -146,6 +146,10 @@ def run(ctx):
                   "the namespace is stored without the alphabetic test and its raise dominating the store",
                   desc="non-alphabetic prefix refused before the store")
 
+    ctx.rule("R13.4", "prefix handling: removed by length (no character-set strip); the per-entry prefix is fresh each iteration")
+    from rules.c03 import strip_family_lint
+    strip_family_lint(ctx, "R13.4", ["schema.hed_schema", "models.hed_tag", "schema.hed_schema_group"])
+
     # ---------------- R13.3
     io = prog.find_module("schema.hed_schema_io")
     lsv = io.functions.get("load_schema_version")
@@ -188,6 +192,28 @@ def run(ctx):
         ctx.check(g is not None, "R13.3", pvl.qualname, a.ast, loc(pvl, a.ast),
                   "a version is recorded without the 'already listed under this prefix' test and its raise",
                   desc="duplicate library refused before it is recorded")
+    # the grouping key (namespace prefix of the entry) is established afresh in every iteration
+    from sa.dataflow import defs_of_node
+    for a in appends:
+        keys = set()
+        for c in vp.node_calls(a):
+            if isinstance(c.func, ast.Attribute) and c.func.attr == "append":
+                for x in ast.walk(c.func.value):
+                    if isinstance(x, ast.Subscript):
+                        keys |= {y.id for y in ast.walk(x.slice) if isinstance(y, ast.Name)}
+        loops = [lp for lp in vp.cfg.nodes if lp.kind == "loop" and any(x is a.ast for b in lp.ast.body for x in ast.walk(b))]
+        for k in sorted(keys):
+            fresh = False
+            for lp in loops:
+                for n_ in vp.cfg.nodes:
+                    if n_.ast is not None and any(x is n_.ast for b in lp.ast.body for x in ast.walk(b)) and \
+                            any(d.name == k and d.kind == "assign" for d in defs_of_node(n_)) and vp.dominates(n_, a):
+                        fresh = True
+            ctx.check(fresh, "R13.4", pvl.qualname, "per-entry definition of `%s`" % k, loc(pvl, a.ast),
+                      "the grouping key `%s` is not re-established in every iteration before the version is recorded: an entry "
+                      "without a prefix inherits the prefix of the previous entry (['sc:score_1.1.0', 'testlib_2.0.0'] loads "
+                      "both under sc:)" % k, desc="grouping key `%s` defined afresh in each iteration" % k)
+
     v2 = view(ctx, lsv2)
     merges = [(n, c) for (n, c) in v2.calls(lambda c: call_name(c) == "_load_schema_version_sub"
                                             and any(kw.arg == "schema" for kw in c.keywords))]
